@@ -780,6 +780,99 @@ impl<'tcx> Cx<'tcx> {
     }
 }
 
+struct RefCollector {
+    refs: Vec<DefId>,
+}
+
+impl<'v> rustc_hir::intravisit::Visitor<'v> for RefCollector {
+    fn visit_expr(&mut self, e: &'v rustc_hir::Expr<'v>) {
+        if let rustc_hir::ExprKind::Path(rustc_hir::QPath::Resolved(_, path)) = &e.kind {
+            if let rustc_hir::def::Res::Def(DefKind::Fn | DefKind::AssocFn, did) = path.res {
+                self.refs.push(did);
+            }
+        }
+        rustc_hir::intravisit::walk_expr(self, e);
+    }
+}
+
+/// Body owners ordered so that a type-check root is visited after every local function its bodies refer to by
+/// path; nested closures / coroutines follow their root.
+fn visit_order<'tcx>(tcx: TyCtxt<'tcx>, owners: &[LocalDefId]) -> Vec<LocalDefId> {
+    use std::collections::{HashMap as BTreeMap, HashSet as BTreeSet};
+    let mut by_root: BTreeMap<LocalDefId, Vec<LocalDefId>> = BTreeMap::new();
+    let mut root_order: Vec<LocalDefId> = Vec::new();
+    for &o in owners {
+        let r = tcx.typeck_root_def_id_local(o);
+        if !by_root.contains_key(&r) {
+            root_order.push(r);
+        }
+        by_root.entry(r).or_default().push(o);
+    }
+    let mut deps: BTreeMap<LocalDefId, Vec<LocalDefId>> = BTreeMap::new();
+    for (&r, members) in by_root.iter() {
+        let mut c = RefCollector { refs: Vec::new() };
+        for &mbr in members {
+            if let Some(body) = tcx.hir_maybe_body_owned_by(mbr) {
+                rustc_hir::intravisit::Visitor::visit_body(&mut c, body);
+            }
+        }
+        let mut ds = Vec::new();
+        for d in c.refs {
+            if let Some(ld) = d.as_local() {
+                let lr = tcx.typeck_root_def_id_local(ld);
+                if lr != r && by_root.contains_key(&lr) && !ds.contains(&lr) {
+                    ds.push(lr);
+                }
+            }
+        }
+        deps.insert(r, ds);
+    }
+    // roots whose signature hides a type (async fn, -> impl Trait) first
+    let mut starts: Vec<LocalDefId> = Vec::new();
+    for &r in &root_order {
+        let did = r.to_def_id();
+        if matches!(tcx.def_kind(did), DefKind::Fn | DefKind::AssocFn) && tcx.asyncness(did).is_async() {
+            starts.push(r);
+        }
+    }
+    for &r in &root_order {
+        if !starts.contains(&r) {
+            starts.push(r);
+        }
+    }
+    let mut done: BTreeSet<LocalDefId> = BTreeSet::new();
+    let mut out: Vec<LocalDefId> = Vec::new();
+    for s in starts {
+        // iterative DFS post-order
+        let mut stack: Vec<(LocalDefId, usize)> = vec![(s, 0)];
+        let mut onstack: BTreeSet<LocalDefId> = BTreeSet::new();
+        while let Some((n, i)) = stack.pop() {
+            if done.contains(&n) {
+                continue;
+            }
+            onstack.insert(n);
+            let ds = deps.get(&n).cloned().unwrap_or_default();
+            if i < ds.len() {
+                stack.push((n, i + 1));
+                let d = ds[i];
+                if !done.contains(&d) && !onstack.contains(&d) {
+                    stack.push((d, 0));
+                }
+            } else {
+                done.insert(n);
+                onstack.remove(&n);
+                if let Some(ms) = by_root.get(&n) {
+                    // nested bodies first (they are what a caller's type check would steal), then the root
+                    for &mbr in ms.iter().rev() {
+                        out.push(mbr);
+                    }
+                }
+            }
+        }
+    }
+    out
+}
+
 fn extract(tcx: TyCtxt<'_>, dir: &str) {
     let crate_name = tcx.crate_name(rustc_hir::def_id::LOCAL_CRATE).to_string();
     CRATE_NAME.with(|c| *c.borrow_mut() = crate_name.clone());
@@ -795,10 +888,15 @@ fn extract(tcx: TyCtxt<'_>, dir: &str) {
         J::Bool(tcx.sess.overflow_checks()),
     );
 
-    // bodies
+    // bodies.  Order matters: building the MIR of X type-checks X, and type-checking a caller of a local
+    // `async fn` / `-> impl Trait` function Y needs Y's hidden return type, which is computed by borrow-checking
+    // Y -- and that *steals* Y's `mir_built`.  So bodies are visited callees-first (DFS post-order over the
+    // path-resolved references between type-check roots); whatever is stolen nevertheless is reported in `stolen`
+    // and makes every check fail closed.
     let mut bodies = Vec::new();
     let mut stolen = Vec::new();
-    for owner in tcx.hir_body_owners() {
+    let owners: Vec<LocalDefId> = tcx.hir_body_owners().collect();
+    for owner in visit_order(tcx, &owners) {
         let did = owner.to_def_id();
         let dk = tcx.def_kind(did);
         // Anonymous/inline consts are evaluated by type checking of their parents; skip.
